@@ -140,3 +140,76 @@ def shard(ctx: Ctx) -> None:
                 res.violation("C04/S/bad-key-wrote", f"{len(dev.conns[0].raw_writes)} client writes reached the device although the configured key is invalid", case)
             if sim.conns and sim.conns[0].obj.connection_state.name != "CLOSED":
                 res.violation(f"C04/S/not-closed/{kind}", f"state {sim.conns[0].obj.connection_state.name}", case)
+
+    # the same malformed key configured again and again - three attempts of one client, then a second client of the process
+    from aioesphomeapi.core import BadNameAPIError  # noqa: PLC0415
+
+    for klabel, key in (("16-bytes", base64.b64encode(PSK[:16]).decode()), ("31-bytes", base64.b64encode(PSK[:31]).decode()),
+                        ("33-bytes", base64.b64encode(PSK + b"x").decode()), ("not-base64", "A" * 41)):
+        idx += 1
+        if not ctx.mine(idx):
+            continue
+        with Sim() as sim:
+            dev = sim.device(DeviceConfig(name="dev", noise_psk=PSK))
+            clients = [sim.client(noise_psk=key), sim.client(noise_psk=key)]
+            for attempt, cli in enumerate((clients[0], clients[0], clients[0], clients[1], clients[1])):
+                c0 = sim.call("connect", lambda cli=cli: cli.connect(login=False))
+                sim.run(until=lambda: c0.done, max_time=sim.clock + 100)
+                res.evaluations += 1
+                res.count("S/bad-key-string-again")
+                res.sig("S-key-again", klabel, attempt)
+                case = {"part": "S", "handshake_deviation": "bad-key-string-again", "key": klabel, "attempt": attempt}
+                if c0.outcome != "raised" or not isinstance(c0.exc, InvalidEncryptionKeyAPIError):
+                    res.violation("C04/S/connect-error/bad-key-string-again", f"attempt {attempt + 1} with the same malformed key ({klabel}): connect() -> {c0.outcome} {c0.exc!r}, "
+                                  "expected InvalidEncryptionKeyAPIError", case, trace=sim.trace(40))
+                    break
+                wrote = sum(len(c.raw_writes) for c in dev.conns)
+                if wrote:
+                    res.violation("C04/S/bad-key-wrote", f"attempt {attempt + 1}: {wrote} client writes reached the device although the configured key is invalid", case)
+                    break
+    # a device that completes the Noise handshake (it has the key) but is not the expected one: the name arrives in the ServerHello (current
+    # firmware), or - ServerHello without a name, firmware before 2022.2 - only in the API hello; either way BadNameAPIError and nothing after it
+    for where in ("server-hello", "api-hello-only"):
+        for traffic in (False, True):
+            idx += 1
+            if not ctx.mine(idx):
+                continue
+            with Sim() as sim:
+                cfg = DeviceConfig(name="bedroom", noise_psk=PSK)
+                if where == "api-hello-only":
+                    cfg.noise_name = None
+                if traffic:
+                    # the wrong device talks on right behind its hello answer (same chunk)
+                    cfg.coalesce_replies = True
+                    from vf.sim.device import DeviceConn  # noqa: PLC0415
+
+                    orig = DeviceConn._h_HelloRequest  # noqa: SLF001
+
+                    def hello_then_states(c: Any, m: Any, orig: Any = orig) -> None:
+                        orig(c, m)
+                        for k in range(3):
+                            c.send("SensorStateResponse", key=70 + k, state=1.0)
+                    cfg.handlers["HelloRequest"] = hello_then_states
+                dev = sim.device(cfg)
+                cli = sim.client(noise_psk=base64.b64encode(PSK).decode(), expected_name="kitchen", keepalive=1e5)
+                delivered: list[Any] = []
+                c0 = sim.call("connect", lambda: cli.connect(on_stop=sim.on_stop_cb(), login=False))
+                sim.run(until=lambda: c0.done, max_time=sim.clock + 100)
+                if c0.outcome == "ok":
+                    try:
+                        cli.subscribe_states(delivered.append)
+                    except Exception:  # noqa: BLE001
+                        pass
+                    dev.conn.send("SensorStateResponse", key=80, state=2.0)
+                    sim.run_for(0.05)
+                res.evaluations += 1
+                res.count(f"S/name-mismatch/{where}")
+                res.sig("S-name", where, traffic)
+                case = {"part": "S", "handshake_deviation": "name-mismatch", "name_in": where, "traffic_behind_hello": traffic}
+                if c0.outcome != "raised" or not isinstance(c0.exc, BadNameAPIError) or c0.exc.received_name != "bedroom":
+                    res.violation(f"C04/S/connect-error/name-mismatch/{where}", f"expected name 'kitchen', device 'bedroom' (name in {where}): connect() -> {c0.outcome} {c0.exc!r}",
+                                  case, trace=sim.trace(40))
+                if delivered or [d_ for d_ in sim.deliveries]:
+                    res.violation(f"C04/S/delivered-after-name-mismatch/{where}", f"{len(delivered) + len(sim.deliveries)} messages of the wrong device were delivered", case)
+                if sim.conns and sim.conns[0].obj.connection_state.name != "CLOSED":
+                    res.violation(f"C04/S/not-closed/name-mismatch/{where}", f"state {sim.conns[0].obj.connection_state.name}", case)
